@@ -50,7 +50,7 @@ type ixCase struct {
 	Sorted ixCodec `json:"sorted"`
 }
 
-var ixDigTab = map[string]struct{ w, rank int }{"D32a": {32, 1}, "D32b": {32, 2}, "D20": {20, 1}, "D64": {64, 1}, "D0": {0, 1}, "D32z": {32, 0}}
+var ixDigTab = map[string]struct{ w, rank int }{"D32a": {32, 1}, "D32b": {32, 2}, "D20": {20, 1}, "D64": {64, 1}, "D0": {0, 1}, "D32z": {32, 0}, "D200": {200, 1}}
 var ixOffTab = map[string]uint64{"o0": 0, "o1": 1, "o32": 1 << 32, "o63m": 1<<63 - 1, "o63": 1 << 63}
 
 func ixDigest(id string) []byte {
